@@ -141,6 +141,28 @@ Print Assumptions C11_stuck_until_peer_resumes.
 Example C11_example_stuck_reachable : stuckh (runh witness_sendch_full (inith 2)) = true.
 Proof. exact stuck_reachable. Qed.
 
+(* "the other end closed the stream" reaches us: once the peer's Stream.close has run its notify block, a
+   close notification is in the io queue or in the socket, or has been handled here, or the session is
+   dead, or the closing side got a socket-write timeout (the socket itself is stuck) - for every
+   interleaving with the queue filling up / draining, the stream entering fallback state, the session dying *)
+Theorem C11_peer_close_notification_in_flight : forall evs, let s := pc_run true evs in
+  pc_notified s = true -> pc_covered s = true.
+Proof. exact peer_close_notification_in_flight. Qed.
+Print Assumptions C11_peer_close_notification_in_flight.
+
+(* the fall-through from a full io queue to the socket path is essential: without it (pc_run false) a Close
+   issued while the queue is full returns ErrQueueFull and nothing is in flight - the reader on the other
+   end is never told (harness family peer-close-queue-full) *)
+Example C11_no_fall_through_loses_the_close :
+  let s := pc_run false [PcEnvQ true; PcCas; PcNotify; PcEnvQ false] in
+  pc_notified s = true /\ pc_err s = true /\ pc_covered s = false.
+Proof. vm_compute. repeat split. Qed.
+
+Example C11_fall_through_example :
+  let s := pc_run true [PcEnvQ true; PcCas; PcNotify; PcEnvQ false; PcDeliverSock] in
+  pc_notified s = true /\ pc_err s = false /\ got_close s = true.
+Proof. vm_compute. repeat split. Qed.
+
 (* non-vacuity: the race the property is about — data arrives after the reader's failed test and
    before it parks; then a deadline case; then peer close *)
 Example C11_example_race :
